@@ -29,6 +29,9 @@ func main() {
 					Hold: true, Mute: !run.Quick(), Early: true, ByzBasic: true, ByzSplit: true, SplitAlt: []string{"nil", "alt"}, Lifo: !run.Quick()})
 			}
 			var scs []*consnet.Scenario
+			// a validator-set change in block 1 (validator 3: power 1 -> 5) followed by every single rule
+			vcCfg := []consnet.Scenario{{Powers: []int64{1, 1, 1, 1}, Byz: 0, Heights: 3, ValChange: &consnet.ValChange{Height: 1, Index: 3, Power: 5}}}
+			scs = append(scs, consnet.Product(vcCfg, full, 1)...)
 			if run.Quick() {
 				// quick: every single rule of the full menu, every pair of round-0 rules
 				small := func(cfg consnet.Scenario) []consnet.Rule {
@@ -45,6 +48,15 @@ func main() {
 			} else {
 				scs = consnet.Product(cfgs, full, d)
 			}
+			// crash of each honest node before every (quick: every 3rd) durable write in a fork attempt that only
+			// the crashed node's restored lock prevents - with the harness repair of the reloaded proposer and without
+			forkAttempt := []consnet.Rule{{Kind: "hold", Node: 3, Msg: "prevote", Round: 0}, {Kind: "byz-split", Msg: "precommit", Round: 0, Set: []int{2}, Alt: "nil"}, {Kind: "byz-fresh", Round: 1}}
+			crashBases := []consnet.Scenario{
+				{Powers: []int64{1, 1, 1, 1}, Byz: 1, Heights: 2, Rules: forkAttempt},
+				{Powers: []int64{1, 1, 1, 1}, Byz: 1, Heights: 2, Rules: forkAttempt, NoProposerFix: true},
+			}
+			crashes, crashInfo := consnet.CrashScenarios(crashBases, run.WorkDir()+"/crashref", run.Pick(3, 1), []int{0, 1})
+			scs = append(scs, crashes...)
 			// delay-bounded scheduling: every single (thorough: also pairs of) non-default choice at
 			// every scheduling decision of three base executions
 			devBases := []consnet.Scenario{
@@ -57,7 +69,7 @@ func main() {
 			}
 			devs, devInfo := consnet.DeviationScenarios(devBases, run.Pick(1, 2), run.WorkDir()+"/devref", 20000)
 			scs = append(scs, devs...)
-			bounds := map[string]interface{}{"deviation_bound": d, "validators": 4, "heights": 2, "rounds_named_by_rules": []int{0, 1}, "delay_bounded_schedules": len(devs), "delay_bounded_info": devInfo}
+			bounds := map[string]interface{}{"deviation_bound": d, "validators": 4, "heights": 2, "rounds_named_by_rules": []int{0, 1}, "delay_bounded_schedules": len(devs), "delay_bounded_info": devInfo, "crash_scenarios": len(crashes), "crash_info": crashInfo}
 			return scs, "delay-bounded scheduling (every non-default input choice - other pending delivery, early/deferred delivery, any armed timeout, skipped turn - at every scheduling decision of the base executions; thorough: pairs) plus every compatible subset of <= d deviation rules (quick: all single rules naming rounds 0-1 and all pairs of round-0 rules; thorough: all subsets of size <= 3 of the full menu, budget-capped) (hold/mute/early-timeout/Byzantine silent, equivocating proposal, fresh proposal, split votes, future-round votes) over 4 real ConsensusState machines (one Byzantine, honest by default), each execution run to 2 committed heights under the fair default schedule; distinct = distinct (committed block per node and height, max round) outcomes",
 				bounds
 		},
